@@ -333,8 +333,10 @@ func c06Check(c *core.Ctx, e *liquid.Engine, seq []ref.Sym, kind string) {
 	c.Obs("accepted", 1)
 	// (iii) tree shape
 	// adjacent text symbols form one text token
-	want := strings.ReplaceAll(refShape(tree, seq), "›;T‹", "›‹")
-	got := strings.ReplaceAll(engShape(tpl.GetRoot()), "›;T‹", "›‹")
+	// a node that holds no text (an empty raw block, or whatever the engine leaves behind for a comment block so that
+	// whitespace control stops there) is no part of the nesting
+	want, got := strings.ReplaceAll(refShape(tree, seq), "R[];", ""), strings.ReplaceAll(engShape(tpl.GetRoot()), "R[];", "")
+	want, got = strings.ReplaceAll(want, "›;T‹", "›‹"), strings.ReplaceAll(got, "›;T‹", "›‹")
 	if strings.Contains(got, "R[*];") {
 		want = regexp.MustCompile(`R\[[^\]]*\];`).ReplaceAllString(want, "R[*];")
 	}
